@@ -142,15 +142,31 @@ def gen_case(rng, maxdepth):
     return kinds, maximize, vals
 
 
-def run_cases(ctx, rng, ncases, maxdepth, sl):
+def exhaustive_cases(maxdepth=3, maxlen=4):
+    """small-scope exhaustive enumeration: every stack of depth <= maxdepth over six wrapper kinds,
+    both directions, every value sequence of length <= maxlen over an alphabet that hits the
+    precision optimum, its edge, one ulp outside the edge, a far value and +inf"""
+    import itertools
+
+    opt, eps = 0.0, 0.5
+    kinds_alpha = [("C",), ("X", 0), ("X", 1), ("X", 2), ("P", opt, eps), ("S",)]
+    vals_alpha = [0.0, 0.5, float(np.nextafter(0.5, np.inf)), 3.0, float("inf")]
+    for depth in range(1, maxdepth + 1):
+        for kinds in itertools.product(kinds_alpha, repeat=depth):
+            for maximize in (False, True):
+                for n in range(1, maxlen + 1):
+                    for vals in itertools.product(vals_alpha, repeat=n):
+                        yield list(kinds), maximize, list(vals)
+
+
+def run_cases(ctx, rng, ncases, maxdepth, sl, cases=None):
     import pyhms.core.problem as P
     from pyhms.stop_conditions.gsc import SingularProblemPrecisionReached
 
     lines = []
     expect = []
     metas = []
-    for _ in range(ncases):
-        kinds, maximize, vals = gen_case(rng, maxdepth)
+    for kinds, maximize, vals in (cases if cases is not None else (gen_case(rng, maxdepth) for _ in range(ncases))):
         base, top, layers, calls = build(kinds, maximize, vals + [0.0] * 4, P)
         ref = reference(kinds, maximize, vals)
         per_call = []
@@ -214,6 +230,16 @@ def run(ctx):
     run_cases(ctx, ctx.rng(1), ctx.size(3000, 40000), 4, sl)
     if ctx.thorough:
         run_cases(ctx, ctx.rng(2), 10000, 8, sl)
+        ex = Slice("wrapper-stacks-exhaustive(depth<=3,len<=4)")
+        import itertools
+
+        it = exhaustive_cases()
+        while True:
+            chunk = list(itertools.islice(it, 50000))
+            if not chunk:
+                break
+            run_cases(ctx, None, 0, 0, ex, cases=chunk)
+        return [sl, ex]
     return [sl]
 
 
